@@ -290,6 +290,12 @@ AggItemsNum == {Agg(f, Fa(2)) : f \in AggFs} \cup {Agg("SUM", <<"mul", Fa(2), <<
 Q_C03num == {[BaseQ EXCEPT !.items = <<it, E(Fa(1))>>, !.hasgroup = g # <<>>, !.group = g] : it \in AggItemsNum, g \in {<<>>, <<Fa(1)>>}}
 \* zero and negative values (a running extreme of 0 must not be mistaken for "no value yet")
 R_numz == {<<k, v>> : k \in {S(97)}, v \in {D(48), Str(<<45, 50>>), D(52), Str(<<45, 55>>)}}       \* "0", "-2", "4", "-7"
+\* numeric group keys whose decimal spellings sort differently from their values (2 < 9 < 10, -5 < -1)
+R_numk  == {<<k, v>> : k \in {IntV(2), IntV(9), IntV(10), IntV(0 - 5), IntV(0 - 1)}, v \in {D(49)}}
+R_numks == {<<k, v>> : k \in {D(50), D(57), Str(<<49, 48>>)}, v \in {D(49), D(50)}}
+Q_C03key  == {[BaseQ EXCEPT !.items = <<E(Fa(1)), Agg("COUNT", <<"int", 1>>)>>, !.hasgroup = TRUE, !.group = <<Fa(1)>>],
+              [BaseQ EXCEPT !.items = <<E(Fa(2)), E(Fa(1)), Agg("COUNT", <<"int", 1>>)>>, !.hasgroup = TRUE, !.group = <<Fa(2), Fa(1)>>]}
+Q_C03keys == {[BaseQ EXCEPT !.items = <<Agg("MAX", Fa(2)), Agg("COUNT", <<"int", 1>>)>>, !.hasgroup = TRUE, !.group = <<<<"num", Fa(1)>> >>]}
 Q_C03med == {[BaseQ EXCEPT !.items = <<Agg(f, Fa(2)), E(Fa(1))>>, !.hasgroup = g # <<>>, !.group = g] :
                f \in {"MEDIAN", "VARIANCE", "AVG", "MIN", "SUM"}, g \in {<<>>, <<Fa(1)>>}}
 Q_C03bad == {[BaseQ EXCEPT !.items = << <<"aggplus", "MAX", Fa(2)>>, E(Fa(1))>>, !.hasgroup = TRUE, !.group = <<Fa(1)>>],
